@@ -303,6 +303,28 @@ func TestC18(t *testing.T) {
 		}
 	}
 
+	// region-suffixed key ids with the plug-ins' default clients (no client injected): the suffix is the client's region
+	for _, region := range []string{"eu-central-1", "ap-southeast-2"} {
+		t.Setenv("AWS_REGION", region)
+		t.Setenv("AWS_ACCESS_KEY_ID", "AKIAVERIFVERIFVERIF")
+		t.Setenv("AWS_SECRET_ACCESS_KEY", "verif/verif/verif/verif/verif/verif/veri")
+		t.Setenv("AWS_EC2_METADATA_DISABLED", "true")
+		r.Eval(1)
+		if m, err := v2m.NewDynamoDB(v2m.WithRegionSuffix(true)); err != nil {
+			r.Inconclusive("default DynamoDB v2 client cannot be built offline: " + err.Error())
+		} else if got := m.GetRegionSuffix(); got != region {
+			r.Violation("c18-key-id-shape:dynamodb-v2", fmt.Sprintf("DynamoDB v2 metastore built with the default client and the region-suffix option reports suffix %q, the client's region is %q: key ids would not carry _%s", got, region, region), nil)
+		} else if m2, _ := v2m.NewDynamoDB(v2m.WithRegionSuffix(false)); m2 != nil && m2.GetRegionSuffix() != "" {
+			r.Violation("c18-key-id-shape:dynamodb-v2", fmt.Sprintf("region suffix %q reported although the option is off", m2.GetRegionSuffix()), nil)
+		}
+		sess1, err := awssession.NewSession(aws.NewConfig().WithRegion(region))
+		if err != nil {
+			r.Inconclusive("default DynamoDB v1 session cannot be built offline: " + err.Error())
+		} else if got := v1p.NewDynamoDBMetastore(sess1, v1p.WithDynamoDBRegionSuffix(true)).GetRegionSuffix(); got != region {
+			r.Violation("c18-key-id-shape:dynamodb-v1", fmt.Sprintf("DynamoDB v1 metastore built on a session of region %q with the region-suffix option reports suffix %q", region, got), nil)
+		}
+		r.Count("default_client_suffix_cases", 1)
+	}
 	for _, mk := range stores() {
 		st := mk()
 		journal("C18 store " + st.name)
